@@ -104,7 +104,9 @@ class LRTDP(Plans):
 
         q_values = defaultdict(lambda : dict())
         policy_dict = {}
-        for s in self.res.V.keys():
+        # states labelled solved may never have had a value stored (their heuristic value was already consistent)
+        labelled = [s for s, solved in self.res.solved.items() if solved and s not in self.res.V]
+        for s in list(self.res.V.keys()) + labelled:
             policy_dict[s] = self.policy(mdp, s)
             for a in mdp.actions(s):
                 q_values[s][a] = self.Q(mdp, s, a)
